@@ -419,7 +419,6 @@ func baseKind(k string) string {
 }
 
 // fmtFaultSig names the failing construct of a format fault.
-//   - (values) among the arguments: the evaluator faults before format runs.
 //   - an index fault: the directives fetch c.args[c.argPos] without looking
 //     whether the position is inside the argument list (one family, every
 //     consuming directive has it).
@@ -427,11 +426,6 @@ func baseKind(k string) string {
 //     arguments, then single bytes, while the same kind of fault remains)
 //     and the signature lists the directives that are left.
 func fmtFaultSig(c *Case, oc outcome) string {
-	for _, a := range c.Args {
-		if a == "values0" && oc.fault == "index[len0]" {
-			return "fault=index[len0] evaluator arg=(values)"
-		}
-	}
 	try := func(ct string, ar []string) (string, bool) {
 		if skippedFmt(ct, ar) != "" || !shrinkSafe(ct) {
 			return "", false
